@@ -237,7 +237,57 @@ def ctor_oracle(case: dict):
     return None
 
 
+def alias_oracle(case: dict):
+    """substitutability includes what a builtin dict shares: update / |= / | / construction / copy store the argument's
+    value OBJECTS, so a nested mapping changed afterwards through another reference shows in both - in lock-step on an SDict
+    graph and on a separate plain-dict graph"""
+    dictIO = _impl()
+    mk_sub = (lambda d: dictIO.SDict(copy.deepcopy(d))) if case["nested_sdict"] else (lambda d: copy.deepcopy(d))
+    sub_i, sub_m = mk_sub(case["sub"]), copy.deepcopy(case["sub"])
+    arg_i, arg_m = {"sub": sub_i, "n": 1}, {"sub": sub_m, "n": 1}
+    a_i, a_m = dictIO.SDict({"top": 0}), {"top": 0}
+    b_i, b_m = dictIO.SDict({"other": 0}), {"other": 0}
+    how = case["how"]
+    try:
+        if how == "update":
+            a_i.update(arg_i); a_m.update(arg_m)
+        elif how == "update-pairs":
+            a_i.update(list(arg_i.items())); a_m.update(list(arg_m.items()))
+        elif how == "ior":
+            a_i |= arg_i; a_m |= arg_m
+        elif how == "or":
+            a_i = a_i | arg_i; a_m = a_m | arg_m
+        elif how == "ctor":
+            a_i = dictIO.SDict(arg_i); a_m = dict(arg_m)
+        elif how == "setitem":
+            a_i["sub"] = sub_i; a_m["sub"] = sub_m
+        elif how == "setdefault":
+            a_i.setdefault("sub", sub_i); a_m.setdefault("sub", sub_m)
+        elif how == "copy":
+            a_i["sub"] = sub_i; a_m["sub"] = sub_m
+            a_i = a_i.copy(); a_m = a_m.copy()
+        if case["second"]:
+            b_i.update(arg_i); b_m.update(arg_m)
+        for step, (op, k, v) in enumerate(case["later"]):
+            for tgt in ((sub_i, sub_m),):
+                if op == "set":
+                    tgt[0][k] = copy.deepcopy(v); tgt[1][k] = copy.deepcopy(v)
+                elif op == "del" and k in tgt[1]:
+                    del tgt[0][k]; del tgt[1][k]
+                elif op == "update":
+                    tgt[0].update({k: copy.deepcopy(v)}); tgt[1].update({k: copy.deepcopy(v)})
+            for name, gi, gm in (("a", a_i, a_m), ("b", b_i, b_m)):
+                if not gen.typed_eq(gen.plain(dict(gi)), gm):
+                    return ("alias", f"{how}, then step {step} {op} {k!r} on the nested mapping through its own reference: the SDict {name} holds "
+                                     f"{gen.plain(dict(gi))!r}, the builtin dict {gm!r}")
+    except Exception as e:  # noqa: BLE001
+        return ("raises", f"{how} with a nested mapping raised {type(e).__name__}: {e}")
+    return None
+
+
 def oracle(case: dict):
+    if case.get("kind") == "alias":
+        return alias_oracle(case)
     """lock-step with a builtin dict (ordinary histories); merge laws; argument not modified"""
     if case.get("kind") == "ctor":
         return ctor_oracle(case)
@@ -334,7 +384,7 @@ def oracle(case: dict):
 
 
 def shrink(case):
-    if case.get("kind") == "ctor":
+    if case.get("kind") in ("ctor", "alias"):
         return
     ops = case["ops"]
     for i in range(len(ops)):
@@ -537,6 +587,15 @@ def run(ctx):
         if rng.random() < 0.5:
             ops.append(("merge", ("plain", {nm: {"late": 1} for nm in names}), ""))
         cases.append({"init": init, "ops": ops, "ordinary": True, "placeholders": False, "alias_args": True})
+    # what a builtin dict shares: nested mappings changed later through another reference
+    for i in range(ctx.n(60, 600)):
+        c = {"kind": "alias", "how": rng.choice(["update", "update-pairs", "ior", "or", "ctor", "setitem", "setdefault", "copy"]),
+             "nested_sdict": rng.random() < 0.5, "second": rng.random() < 0.4, "sub": small_tree(rng, 1),
+             "later": [(rng.choice(["set", "set", "del", "update"]), pool_key(rng), rng.choice([1, "x", {"q": 1}])) for _ in range(rng.randrange(1, 4))]}
+        r = oracle(c)
+        if r:
+            ctx.oracle_fail(c, r[0], r[1])
+        ctx.count(("al", repr(c)), True, "alias")
     # two SDicts whose tables use the SAME ids for different entries (ids are unique per counter run only): the argument
     # brings a placeholder entry the target lacks on that level, the target uses that id elsewhere or keeps a left-over row
     for i in range(ctx.n(60, 1200)):
